@@ -216,7 +216,7 @@ fn decode_request_pdu_bytes(bytes: &Bytes) -> io::Result<Request<'static>> {
             let address = read_u16_be(rdr)?;
             let quantity = read_u16_be(rdr)?;
             let byte_count = rdr.read_u8()?;
-            if u16::from(byte_count) != quantity * 2 {
+            if usize::from(byte_count) != usize::from(quantity) * 2 {
                 return Err(io::Error::new(ErrorKind::InvalidData, "invalid quantity"));
             }
             let mut data = Vec::with_capacity(quantity.into());
@@ -239,7 +239,7 @@ fn decode_request_pdu_bytes(bytes: &Bytes) -> io::Result<Request<'static>> {
             let write_address = read_u16_be(rdr)?;
             let write_quantity = read_u16_be(rdr)?;
             let write_count = rdr.read_u8()?;
-            if u16::from(write_count) != write_quantity * 2 {
+            if usize::from(write_count) != usize::from(write_quantity) * 2 {
                 return Err(io::Error::new(
                     ErrorKind::InvalidData,
                     "invalid write quantity",
